@@ -47,10 +47,10 @@ class SymEnv(dict):
 
     def __init__(self, ex, sk):
         super().__init__()
-        self.ex, self.decl = ex, sk.get("vars", {})
+        self.ex, self.sk = ex, sk
 
     def __missing__(self, n):
-        kind, lo, hi = self.decl.get(n, ("int", 0, T_MAX))
+        kind, lo, hi = self.sk.get("vars", {}).get(n, ("int", 0, T_MAX))
         if kind == "int":
             v = self.ex.int(n, lo, hi)
         elif kind == "real":
